@@ -140,8 +140,24 @@ func (d *Driver) F1(maxNodes int) {
 		par.For(shards, func(sh int) {
 			l := d.local(fmt.Sprintf("F1:size%d", n))
 			enc := zapcore.NewJSONEncoder(c.EncoderConfig())
-			for li := sh; li < len(lists); li += shards {
-				specs := lists[li]
+			// second pass over the lists with a failing field: a user-supplied streaming reflection
+			// encoder that has written part of its output when it fails
+			cp := c
+			cp.ReflectEnc = "partial"
+			encP := zapcore.NewJSONEncoder(cp.EncoderConfig())
+			for li := sh; li < 2*len(lists); li += shards {
+				specs := lists[li%len(lists)]
+				c, enc := c, enc
+				if li >= len(lists) {
+					if !HasFault(specs) {
+						continue
+					}
+					c, enc = cp, encP
+				}
+				sfx := ""
+				if c.ReflectEnc != "" {
+					sfx = " [NewReflectedEncoder: streaming encoder that fails after partial output]"
+				}
 				if d.FaultsOnly && !HasFault(specs) {
 					continue
 				}
@@ -157,9 +173,9 @@ func (d *Driver) F1(maxNodes int) {
 						}
 						if a == 0 && b == 0 && m > 0 {
 							// no context at all: also through the plain EncodeEntry path
-							l.one(c, enc, e, p, false, d.treeKey(p), func() string { return descP(p) })
+							l.one(c, enc, e, p, false, d.treeKey(p, sfx), func() string { return descP(p) + sfx })
 						}
-						l.one(c, enc, e, p, true, d.treeKey(p), func() string { return descP(p) })
+						l.one(c, enc, e, p, true, d.treeKey(p, sfx), func() string { return descP(p) + sfx })
 					}
 				}
 			}
@@ -169,9 +185,9 @@ func (d *Driver) F1(maxNodes int) {
 	d.Samples = append(d.Samples, map[string]any{"family": "F1", "example": descP(Placement{Call: g.Lists(3)[len(g.Lists(3))/2]})})
 }
 
-func (d *Driver) treeKey(p Placement) func(kind, msg string) string {
+func (d *Driver) treeKey(p Placement, sfx string) func(kind, msg string) string {
 	return func(kind, msg string) string {
-		return fmt.Sprintf("F1:%s:%s:%s", kind, msgClass(msg), descP(p))
+		return fmt.Sprintf("F1:%s:%s:%s%s", kind, msgClass(msg), descP(p), sfx)
 	}
 }
 
@@ -582,4 +598,99 @@ func (d *Driver) Numbers() {
 		}
 	}
 	l.done()
+}
+
+// swallowArr is a user array marshaler that carries on after an element that
+// cannot be encoded (it ignores AppendReflected's error).
+type swallowArr struct{}
+
+func (swallowArr) MarshalLogArray(e zapcore.ArrayEncoder) error {
+	_ = e.AppendReflected([]int{1})
+	_ = e.AppendReflected(make(chan int))
+	_ = e.AppendReflected(map[string]int{"z": 2})
+	_ = e.AppendReflected(make(chan int))
+	return nil
+}
+
+// ReflectSeqs runs every sequence of <= maxLen fields over an alphabet of
+// reflected values that encode, reflected values that cannot be encoded, and a
+// plain field, under every split into With segments and call-site fields, once
+// inside an object too, with zap's default reflection encoder and with a
+// user-supplied streaming one. Successive reflected values share the encoder's
+// reflection scratch state, which no single-value case exercises.
+func (d *Driver) ReflectSeqs(maxLen int) {
+	byName := map[string]*Spec{}
+	for _, s := range Leaves(true) {
+		byName[s.Name] = s
+	}
+	var alpha []*Spec
+	for _, n := range []string{"reflect:map", "reflect:chan(unencodable)", "reflect:failing-json-marshaler", "reflect:html-struct", "int64:max"} {
+		s := byName[n]
+		if s == nil {
+			ev.ToolError("ReflectSeqs: no leaf named %q", n)
+		}
+		alpha = append(alpha, s)
+	}
+	sw := fixed("array:carries-on-after-unencodable-elements", func(k string) zapcore.Field { return zap.Array(k, swallowArr{}) },
+		jsonx.A(jsonx.A(jsonx.N("1")), jsonx.O().Add("z", jsonx.N("2"))))
+	sw.Fault = true // contains elements that cannot be encoded (MapObjectEncoder stores them regardless: no comparison with it)
+	alpha = append(alpha, sw)
+	var lists [][]*Spec
+	var rec func(cur []*Spec)
+	rec = func(cur []*Spec) {
+		if len(cur) > 0 {
+			lists = append(lists, append([]*Spec(nil), cur...))
+		}
+		if len(cur) == maxLen {
+			return
+		}
+		for _, a := range alpha {
+			rec(append(cur, a))
+		}
+	}
+	rec(nil)
+	e := DefaultEnt()
+	shards := 32
+	par.For(shards, func(sh int) {
+		l := d.local("reflect-sequences")
+		for _, re := range []string{"", "partial"} {
+			c := DefaultCfg()
+			c.ReflectEnc = re
+			enc := zapcore.NewJSONEncoder(c.EncoderConfig())
+			sfx := " [reflection encoder: zap's default]"
+			if re != "" {
+				sfx = " [NewReflectedEncoder: streaming encoder that fails after partial output]"
+			}
+			for li := sh; li < len(lists); li += shards {
+				specs := lists[li]
+				if d.FaultsOnly && !HasFault(specs) {
+					continue
+				}
+				m := len(specs)
+				var ps []Placement
+				for a := 0; a <= m; a++ {
+					for b := a; b <= m; b++ {
+						p := Placement{Call: specs[b:]}
+						if a > 0 {
+							p.With = append(p.With, specs[:a])
+						}
+						if b > a {
+							p.With = append(p.With, specs[a:b])
+						}
+						ps = append(ps, p)
+					}
+				}
+				ps = append(ps, Placement{Call: []*Spec{{Kind: KObject, Name: "object", Children: specs, ErrAt: -1}}})
+				for _, p := range ps {
+					p := p
+					key := func(kind, msg string) string {
+						return fmt.Sprintf("reflect-seq:%s:%s:%s%s", kind, msgClass(msg), descP(p), sfx)
+					}
+					l.one(c, enc, e, p, true, key, func() string { return descP(p) + sfx })
+				}
+			}
+		}
+		l.done()
+	})
+	d.Samples = append(d.Samples, map[string]any{"family": "reflect-sequences", "lists": len(lists), "alphabet": Describe(alpha)})
 }
